@@ -60,6 +60,8 @@ type ResponderInterceptor struct {
 
 	streams   map[uint32]*localStream
 	streamsMu sync.Mutex
+
+	resendWg sync.WaitGroup
 }
 
 type localStream struct {
@@ -95,7 +97,11 @@ func (n *ResponderInterceptor) BindRTCPReader(reader interceptor.RTCPReader) int
 				continue
 			}
 
-			go n.resendPackets(nack)
+			n.resendWg.Add(1)
+			go func() {
+				defer n.resendWg.Done()
+				n.resendPackets(nack)
+			}()
 		}
 
 		return i, attr, err
@@ -168,6 +174,9 @@ func (n *ResponderInterceptor) Close() error {
 		stream.rtpBuffer.Clear()
 		stream.rtpBufferMutex.Unlock()
 	}
+
+	// retransmissions already under way finish before Close returns
+	n.resendWg.Wait()
 
 	return nil
 }
